@@ -124,12 +124,20 @@ def pageQuery (q : Query) (n : Nat) (cur : List Val) : Query :=
 /-- the same query without limits and cursors -/
 def fullQuery (q : Query) : Query := Query.mk q.ent q.sels q.filters q.orders 0 0 [] []
 
+/-- a filter looks at the entity and the selections of its query only -/
+theorem holds_query_irrel (d : Defects) (s : Schema) (data : Data) (fuel : Nat) (key : String)
+    (e : Nat) (ss : List Sel) (fs fs' : List Filter) (os os' : List Order) (f f' sk sk' : Nat) (af af' bf bf' : List Val)
+    (r : Row) (flt : Filter) :
+    holds d s data fuel key (Query.mk e ss fs os f sk af bf) r flt =
+      holds d s data fuel key (Query.mk e ss fs' os' f' sk' af' bf') r flt := by
+  cases fuel <;> simp [holds, Query.ent, Query.sels]
+
 theorem evalRows_fullQuery (d : Defects) (s : Schema) (data : Data) (fuel : Nat) (key : String) (q : Query)
     (cands : List Row) (b : Bool) :
     evalRows d s data (fuel + 1) key (fullQuery q) cands b =
       sortBy (fun a b => tupleLe q.orders (keysOf d s q.ent q.orders a) (keysOf d s q.ent q.orders b))
         (cands.filter fun r => r.ent = q.ent && q.sels.all (fun sel => subPresent d s data fuel key r sel) &&
-          q.filters.all (filterHolds d s q.ent r)) := by
+          q.filters.all (holds d s data fuel key (fullQuery q) r)) := by
   cases q with
   | mk e ss fs os f sk af bf =>
     cases b <;>
@@ -145,8 +153,13 @@ theorem evalRows_pageQuery (d : Defects) (s : Schema) (data : Data) (fuel : Nat)
   rw [evalRows_fullQuery]
   cases q with
   | mk e ss fs os f sk af bf =>
+    have hh : ∀ r flt, holds d s data fuel key (Query.mk e ss fs os n 0 cur []) r flt =
+        holds d s data fuel key (fullQuery (Query.mk e ss fs os f sk af bf)) r flt := by
+      intro r flt; exact holds_query_irrel ..
+    have hh' : ∀ r, holds d s data fuel key (Query.mk e ss fs os n 0 cur []) r =
+        holds d s data fuel key (fullQuery (Query.mk e ss fs os f sk af bf)) r := fun r => funext (hh r)
     simp [evalRows, pageQuery, Query.ent, Query.sels, Query.filters, Query.orders, Query.after, Query.before,
-      Query.first, Query.skip, cursorHolds, limit, hn0]
+      Query.first, Query.skip, cursorHolds, limit, hn0, hh']
     rfl
 
 /-! ### sorting -/
